@@ -172,8 +172,16 @@ func (r *metricReader) readSeriesData(ctx *flow.DataLoadContext, seriesIdx uint1
 	fieldCount := r.fields.Len()
 	if fieldCount == 1 {
 		decoder.ResetWithTimeRange(seriesEntryBlock, r.timeRange.Start, r.timeRange.End)
-		// metric has one field, just read the data
-		ctx.DownSampling(r.timeRange, seriesIdx, 0, decoder)
+		// metric has one field, just read the data,
+		// it belongs to the query field which was found in this block(not always the first query field)
+		queryIdx := 0
+		for idx, readIdx := range r.readFieldIndexes {
+			if readIdx != fieldNotFound {
+				queryIdx = idx
+				break
+			}
+		}
+		ctx.DownSampling(r.timeRange, seriesIdx, queryIdx, decoder)
 		return
 	}
 
